@@ -28,6 +28,10 @@ CHECKS = {
    text='Machine-checked (axiom-free): accept_sound (each of 13 modelled rule evaluations only yields consequences of its premises), entails_tt_spec (truth-table entailment is exactly semantic entailment). Every step that macro.eval accepts, for 38 propositional rules on correct and single-field near-miss instances, is translated to propositional form over opaque atoms and decided by entails_tt; hypotheses of the conclusion must come from the premises; for the modelled rules the model decision and conclusion are compared with macro.eval. Partial: equality/congruence, la_generic, simplification and quantifier rules are not covered.',
    note='Trusted: Coq kernel; translation of HOL terms to propositional skeletons in the harness; generator coverage of near misses.',
    design='7/C18'),
+ 'C05': dict(category='proof', technique='Coq proof that the type-blind evaluators agree with a type-directed exact semantics and that the guarded macros assert only true facts + acceptance correspondence + exact/mpmath oracles on every level-0 arithmetic macro',
+   text='Machine-checked (axiom-free): nat_eval/int_eval/real_eval (rational fragment) compute the standard value of every ground term that has one at their type; the guarded nat_eval/int_eval/real_eval macros accept only goals true under the type-directed meaning (truncated nat subtraction, x/0=0, exact rationals). Model acceptance is compared with one-step proofs through theory.check_proof (~650 goals incl. foreign-type and near-miss goals); every sequent produced by any level-0 arithmetic macro (also real_const_eq, int/real_const_ineq, real_compare, const_inequality, real_norm) is judged by the Coq semantics, by exact evaluation at rational points (real_norm) or by mpmath at 60 digits (irrational constants; exploration). One known finding: const_inequality on irrational constants uses floats.',
+   note='Trusted: Coq kernel; model tie = acceptance correspondence; real exponents and transcendental functions are outside the Coq semantics; standard meaning defined only for constants at declared numeric instances.',
+   design='7/C05'),
 }
 m = {
  'version': 1,
